@@ -224,6 +224,25 @@ ADDENDA12 = {
 for _p, _t in ADDENDA12.items():
     CHECKS[_p]["text"] = CHECKS[_p]["text"] + " " + _t
 
+ADDENDA13 = {
+ "C01": "Dimension Siblings: a second struct variant before / after the variant under test, with / without a rename_all of its own (each variant is resolved on its own).",
+ "C02": "Dimension Marks: a variant carrying skip_serializing or skip_deserializing alone stays part of the wire format.",
+ "C03": "Walk: directories named target / node_modules / vendor / build are ordinary directories.",
+ "C05": "Trace_C05!DeclOk: a declaration states the item's whole parameter list, also parameters the aliased / serialized_as type does not mention.",
+ "C06": "Template Ren (a type-level serde(rename) whose two names lie on either side of its neighbours); generic items with several parameter names in the fresh-process classes.",
+ "C07": "Leg workspaces: MC_C06_ws under MC_C07_ws.cfg (one identifier defined by several crates x import forms x renames) through the real binary, both modes, 6 languages.",
+ "C08": "Untagged enums whose data variant is a struct variant (with fields, every field skipped, no field).",
+ "C09": "Generic parameters named like typeshared types (ShadowS / ShadowT) and the references that follow them.",
+ "C13": "Items without a predicate inside guarded inline modules (outer attribute, nested, inner attribute) are kept.",
+ "C15": "Position const (containment of the doc text of constants).",
+ "C16": "Context enum-fields-rule-after-ruled-variant.",
+ "C17": "v4 carries generic items with several parameter names.",
+ "C19": "Helper lang (per-language decorator lists with a type override) in the quick tier.",
+ "C20": "The prefix is read at every place that takes it: every definition and every reference of the run.",
+}
+for _p, _t in ADDENDA13.items():
+    CHECKS[_p]["text"] = CHECKS[_p]["text"] + " " + _t
+
 NOT_YET = "not built yet in this round (planned: see DESIGN.md section 6); no check is registered, nothing is claimed"
 
 def main():
@@ -258,7 +277,7 @@ def main():
              "kind_free_text": "explicit TLA+ specifications (spec/*.tla) checked with TLC; TLC-enumerated cases replayed into the real typeshare code (harness/driver, hooked CLI) and recorded executions validated against the specifications by TLC"},
         ],
         "checks": checks,
-        "notes": "Fix commits in /repo: d7ce7e9 (C16), 1dc1d80 (C11), 47370c3 cdfed7c 284909f 436a798 e0dfe05 (C07), 1d75015 6f56816 (C06), 21da1da (C17), 2d0dc35 (C03/C07), f02e16b e9e1c5a (C08), 830075e 1991718 (C09), 4bf29f2 f3c53ac (C12), db7690c 1544cd8 d419ad3 (C15), 9a3634b e99f637 16b290f (C14), 93bbea9 954ba84 30c9724 (C10), c88ded6 (C04/C12), ec33687 79a3dfe (C07), 76b8fba (C02), 1e8c5a2 (C07/C11), 8e0314f (C12), f476e89 (C10), 8cdcc90 (C15), 12228a2 (C01/C16), ed2a94f (C04), 08a66d1 (C07/C03), 541a053, 9638a7c, b605406, 9f72e2b, b4c3d96 (C10). Known findings: /verif/known_findings.jsonl. DESIGN.md describes layers P (judge), M (implementation models, predictions only) and B (binding).",
+        "notes": "Fix commits in /repo: d7ce7e9 (C16), 1dc1d80 (C11), 47370c3 cdfed7c 284909f 436a798 e0dfe05 (C07), 1d75015 6f56816 (C06), 21da1da (C17), 2d0dc35 (C03/C07), f02e16b e9e1c5a (C08), 830075e 1991718 (C09), 4bf29f2 f3c53ac (C12), db7690c 1544cd8 d419ad3 (C15), 9a3634b e99f637 16b290f (C14), 93bbea9 954ba84 30c9724 (C10), c88ded6 (C04/C12), ec33687 79a3dfe (C07), 76b8fba (C02), 1e8c5a2 (C07/C11), 8e0314f (C12), f476e89 (C10), 8cdcc90 (C15), 12228a2 (C01/C16), ed2a94f (C04), 08a66d1 (C07/C03), 541a053, 9638a7c, b605406, 9f72e2b, b4c3d96 (C10), d63e178 (C09). Known findings: /verif/known_findings.jsonl. DESIGN.md describes layers P (judge), M (implementation models, predictions only) and B (binding).",
         "not_applicable": [{"property_id": p, "reason": NA.get(p, NOT_YET)} for p in ALL if p not in CHECKS],
     }
     json.dump(m, open(os.path.join(ROOT, "MANIFEST.json"), "w"), indent=1)
